@@ -64,7 +64,9 @@ MANIFEST = dict(
           "made through the shared-node shortcut, those edges are characterised exactly (C07_shared_edges: their target was created "
           "for another artifact key) and one-version is proved IN FULL for graphs in which no package occurs with two "
           "(classifier, type) variants (C07_one_version_single_variant); nearest-wins is proved for a successful first pass, for soft "
-          "AND range first declarations (C07_first_declaration_decides: the first declaration of a key decides alone). Both are "
+          "AND range first declarations (C07_first_declaration_decides: the first declaration of a key decides alone), and for every "
+          "number of passes the selected version is what findMatch answers on the FINAL requirement list of the key "
+          "(C07_final_list_decides, the rule the oracle re-evaluates in python on the Go graphs). Both unrestricted clauses are "
           "REFUTED in full by two "
           "witnesses that are also Go runs (known findings F-C07-1, F-C07-2). Tied to the code by differential execution of the "
           "extracted model and the real resolver on the same recorded client table; every clause is also evaluated directly on "
